@@ -353,6 +353,46 @@ def litType (P : Plat) (unspecified : Bool) (dec us : Bool) (longs value : Nat) 
   else litTypeCore (maxValue (P.charBit * P.sizeofInt)) (maxValue (P.charBit * P.sizeofLong))
          (maxValue (P.charBit * P.sizeofLongLong)) dec us longs value
 
+/-! ## Expression trees: the type of a nested expression is the fold of the per-node rules
+
+`setValueType(tok, vt)` types the AST parent as soon as all its operands carry a `ValueType`, and the parent's type is a
+function of the operator and the operands' `ValueType`s only.  For operands of arithmetic type this makes the type of a whole
+tree the fold below.  That the real code is compositional in this way is what the nested-expression correspondence of the
+check tests (depth 2–4 trees with variables and literals as leaves). -/
+
+/-- how an integer literal is spelled; binary literals go with hexadecimal ("octal or hexadecimal constant" column of
+    C17 6.4.4.1p5; `MathLib::isDec` is false for both) -/
+inductive Base
+  | dec | oct | hex
+  deriving DecidableEq, Repr, Inhabited
+
+inductive Expr
+  | var (t : CT)                                        -- a declared variable (parameter) of the type
+  | lit (base : Base) (us : Bool) (longs value : Nat)   -- an integer literal
+  | un (op : UnOp) (e : Expr)
+  | bin (op : BinOp) (a b : Expr)
+  | tern (c a b : Expr)                                 -- `c ? a : b`
+  | cast (t : CT) (e : Expr)                            -- `(T)e`
+  deriving Repr, Inhabited
+
+/-- the `ValueType` the code attaches to the root token of the expression (`P` not `Type::Unspecified`) -/
+def typeOf (v : Variant) (P : Plat) (cpp : Bool) : Expr → Option VT
+  | .var t => some (declVT t)
+  | .lit base us longs value => some (litType P false (base != .hex) us longs value)
+  | .un op e =>
+    match typeOf v P cpp e with
+    | some x => convUn v P.shape op x
+    | none => none
+  | .bin op a b =>
+    match typeOf v P cpp a, typeOf v P cpp b with
+    | some x, some y => convBin v P.shape cpp op x y
+    | _, _ => none
+  | .tern _ a b =>
+    match typeOf v P cpp a, typeOf v P cpp b with
+    | some x, some y => convTernary v P.shape cpp x y
+    | _, _ => none
+  | .cast t _ => some (convCast t)
+
 /-! ## Rendering for the driver -/
 
 def VType.str : VType → String
